@@ -55,10 +55,10 @@ package core
 //@ macro forwardingOK(f) = f != nil && okProto(f.ProtocolId) && f.ProtocolId != PROTOCOL_UNSUPPORTED && f.Attributes != nil
 
 //@ func (a *Action) Validate() (err)
-//@   ensures[base] err == nil ==> actionOK(a)
+//@   ensures[base,C15] err == nil ==> actionOK(a)
 
 //@ func (f *Forwarding) Validate() (err)
-//@   ensures[base] err == nil ==> forwardingOK(f)
+//@   ensures[base,C15] err == nil ==> forwardingOK(f)
 
 // An accepted payload: one accepted forwarding; every pre-action accepted; identifiers pairwise distinct.
 //@ macro actionsOK(p) = forall j int :: 0 <= j && j < len(p.PreActions) ==> actionOK(p.PreActions[j])
@@ -70,9 +70,9 @@ package core
 //@   loop 0 invariant[base] forall j int :: 0 <= j && j < idx ==> mapHas(visitedIDs, p.PreActions[j].Id)
 //@   loop 0 invariant[base] forall i int, j int :: 0 <= i && i < j && j < idx ==> p.PreActions[i].Id != p.PreActions[j].Id
 //@   loop 1 invariant[base] forall j int :: 0 <= j && j < idx ==> actionOK(p.PreActions[j])
-//@   ensures[base] err == nil ==> p != nil && forwardingOK(p.Forwarding)
-//@   ensures[base] err == nil ==> actionsOK(p)
-//@   ensures[base] err == nil ==> actionsDistinct(p)
+//@   ensures[base,C15] err == nil ==> p != nil && forwardingOK(p.Forwarding)
+//@   ensures[base,C15] err == nil ==> actionsOK(p)
+//@   ensures[base,C15] err == nil ==> actionsDistinct(p)
 
 // ---------------------------------------------------------------------------------------------
 // Counterparty identifier of forwarding attributes, as a function of the attributes (C08, C12, C20)
